@@ -1,6 +1,7 @@
 """C17 worker: one process per case, because the subject is a writer opened on the process's real standard output.
 Usage:  python -m verif.worker_c17 <writer-uri> <history> <seed> <shapes>
         python -m verif.worker_c17 --rdump <rdump arguments...>      (cwd = directory relative names resolve in)
+        python -m verif.worker_c17 --state <state> <jobs.json> <status.json>   (process-state family, real output paths)
 
 Builds the deterministic record sequence of the case (verif.io_c17.make_records with fixed `_generated` values, so the
 parent can rebuild the identical records), opens RecordWriter(<writer-uri>) - '', '-', 'stream://', 'jsonfile://',
@@ -38,9 +39,89 @@ def rdump_main(argv):
     sys.stderr.flush()
 
 
+def apply_state(state):
+    """Put the process into the given state BEFORE flow.record is imported and any writer is opened."""
+    import io
+
+    note = {}
+    if state in ("close1", "close012", "close012-hold0"):
+        os.close(1)
+    if state in ("close0", "close012", "close012-hold0"):
+        os.close(0)
+    if state in ("close2", "close012", "close012-hold0"):
+        os.close(2)
+    if state == "close012-hold0":
+        note["held_fd"] = os.open(os.devnull, os.O_RDONLY)  # takes descriptor 0, so the next file opened lands on 1
+    if state == "fake-bytesio":
+        class Capture(io.BytesIO):
+            """a BytesIO-like replacement of sys.stdout (no .buffer, no file descriptor)"""
+
+        sys.stdout = Capture()
+    if state == "fake-stringio":
+        sys.stdout = io.StringIO()
+    note["sys_stdout"] = type(sys.stdout).__name__
+    return note
+
+
+def state_main(argv):
+    """--state <state> <jobs.json> <status.json>: writers on REAL paths in a process whose standard descriptors / sys.stdout
+    are in an unusual state.  jobs: [{"uri", "hist", "seed", "shapes"}...], run one after the other."""
+    state, jobs_path, status_path = argv
+    with open(jobs_path) as f:
+        jobs = json.load(f)
+    status = {"state": state, "jobs": [], "done": False}
+    try:
+        status["note"] = apply_state(state)
+        import flow.record
+        from flow.record import RecordWriter
+
+        from verif import io_c17 as io17
+
+        status["flow_record_file"] = flow.record.__file__
+        for job in jobs:
+            hist = job["hist"]
+            nw = hist.count("w")
+            records = io17.make_records(job["seed"], nw, job["shapes"], generated=io17.fixed_generated(nw))
+            js = {"errors": [], "created": False}
+            status["jobs"].append(js)
+            try:
+                w = RecordWriter(job["uri"])
+            except Exception as e:  # noqa: BLE001
+                js["create_error"] = "%s: %s" % (type(e).__name__, str(e)[:300])
+                continue
+            js["created"] = True
+            try:
+                js["fileno"] = w.fp.fileno()
+            except Exception:  # noqa: BLE001 - not every writer has a file object with a descriptor
+                js["fileno"] = None
+            if "x" in hist:
+                w.__enter__()
+            it = iter(records)
+            for pos, op in enumerate(hist):
+                try:
+                    if op == "w":
+                        w.write(next(it))
+                    elif op == "f":
+                        w.flush()
+                    elif op == "c":
+                        w.close()
+                    elif op == "x":
+                        w.__exit__(None, None, None)
+                except Exception as e:  # noqa: BLE001
+                    js["errors"].append({"at": pos, "op": op, "exception": "%s: %s" % (type(e).__name__, str(e)[:200])})
+            del w
+        status["done"] = True
+    except Exception as e:  # noqa: BLE001
+        status["worker_error"] = "%s: %s" % (type(e).__name__, str(e)[:300])
+    with open(status_path, "w") as f:
+        json.dump(status, f)
+
+
 def main(argv):
     if argv and argv[0] == "--rdump":
         return rdump_main(argv[1:])
+    if argv and argv[0] == "--state":
+        return state_main(argv[1:])
     uri, hist, seed, shapes = argv[0], argv[1], int(argv[2]), argv[3]
     import flow.record
     from flow.record import RecordWriter
